@@ -264,8 +264,15 @@ func vu8Repaired(q vu8Seq, perByte bool) string {
 	return "bad" + q.perRun + " tail"
 }
 
+// vu8Wrap: every failure on the way to the one under test carries a valid, non-empty message of its own (a well-formed
+// wrapper - "activity error" - around the failure with the bad bytes)
+var vu8Wrap bool
+
 func vu8Build(m protoreflect.Message, path []string, leaf string) error {
 	md := m.Descriptor()
+	if vu8Wrap && len(path) > 1 && path[0] == "cause" && md.FullName() == "temporal.api.failure.v1.Failure" {
+		m.Set(md.Fields().ByName("message"), protoreflect.ValueOfString("wrapper: valid text"))
+	}
 	fd := md.Fields().ByName(protoreflect.Name(path[0]))
 	if fd == nil {
 		return fmt.Errorf("no field %s in %s", path[0], md.FullName())
@@ -348,6 +355,7 @@ type vu8Oblig struct {
 		Wire  string `json:"wire"`  // "ok" | "truncated"
 		Prior string `json:"prior"` // what this process decoded for the same type just before: "none" | "overdeep" | "repaired"
 	} `json:"class"`
+	Wrap bool `json:"wrap"` // the failures above the one under test have valid non-empty messages
 	Deep bool `json:"deep"` // kind path: the failure message sits at the end of a cause chain of exactly the supported depth
 	Seq  int  `json:"seq"`  // which kind of invalid content
 }
@@ -403,7 +411,7 @@ func TestVerifUtf8Obligations(t *testing.T) {
 		if err := json.Unmarshal(sc.Bytes(), &ob); err != nil {
 			t.Fatalf("bad obligation: %v", err)
 		}
-		rec := map[string]interface{}{"ev": "Utf8", "id": ob.ID, "kind": ob.Kind, "type": ob.Type, "path": ob.Path, "class": ob.Class, "deep": ob.Deep, "seq": ob.Seq % len(vu8Seqs),
+		rec := map[string]interface{}{"ev": "Utf8", "id": ob.ID, "kind": ob.Kind, "type": ob.Type, "path": ob.Path, "class": ob.Class, "deep": ob.Deep, "wrap": ob.Wrap, "seq": ob.Seq % len(vu8Seqs),
 			"built": false, "ok": false, "err": "", "all_valid": false, "equals_reference": false, "std_ok": false, "same_as_std": false}
 		func() {
 			md := vu8Descriptor(ob.Type)
@@ -412,6 +420,7 @@ func TestVerifUtf8Obligations(t *testing.T) {
 				return
 			}
 			msg := vu8New(md)
+			vu8Wrap = false
 			q := vu8Seqs[ob.Seq%len(vu8Seqs)]
 			bad := q.raw
 			nbad := 1
@@ -442,6 +451,8 @@ func TestVerifUtf8Obligations(t *testing.T) {
 						}
 					}
 				}
+				vu8Wrap = ob.Wrap
+				defer func() { vu8Wrap = false }()
 				if err := vu8Build(msg.ProtoReflect(), path, vu8Placeholder); err != nil {
 					rec["err"] = "build: " + err.Error()
 					return
